@@ -72,8 +72,10 @@ Agnostic / excluded corners
     explicit `js = None`, missing `*_file` targets, bytes / Path / callable / SafeString
     entries, extend lists naming later classes or repeating a class, `template_name`
     together with `template_file`, plain (non-Component) mixins carrying a Media, a custom
-    `media_class`, Media subclassing another Media, classes of one hierarchy in different
-    directories.
+    `media_class`, Media subclassing another Media.  Classes of one hierarchy in different
+    directories only in part D (parent / child / grandchild, same-named files in both directories, every
+    ordered choice of the first reads): a relative name denotes the file next to the module of the class
+    that declared it, whatever is read first.
 """
 from __future__ import annotations
 
@@ -1242,6 +1244,133 @@ def _selftest(mark):
 _T = [0.0]
 
 
+# ------------------------------------------------------------------ part D: one hierarchy, two directories
+# Parent P lives in <root>/c16sub/, child C (and, n = 3, grandchild G next to P again) in <root>/c16sub2/.  Both directories
+# hold files with the SAME names and different content: a relative name declared by a class denotes the file next
+# to the module of the class that DECLARED it - whoever is read first.
+REL2 = "c16sub2"
+D_CHILD_MEDIA = ("absent", "empty", "own")     # C has no Media / an empty Media / a Media with a file of its own dir
+D_CHILD_PAIR = ("absent", "file")               # C.js_file absent (inherits P's) / declared again (same name, C's directory)
+D_READS = (("P", "media"), ("C", "media"), ("C", "js"), ("P", "js"), ("Ci", "media"), ("G", "media"), ("G", "js"))
+
+
+def d_env(mark):
+    for rel in (REL, REL2):
+        d = os.path.join(_ENV["root"], rel)
+        os.makedirs(d, exist_ok=True)
+        for name, text in ((f"{mark}_d_same.js", "/*m %s*/"), (f"{mark}_d_same.css", "/*m %s*/"), (f"{mark}_d_pair.js", "/*pair %s*/"),
+                           (f"{mark}_d_own.js", "/*own %s*/")):
+            with open(os.path.join(d, name), "w") as f:
+                f.write(text % rel)
+
+
+def d_world(mark, cmedia, cpair, with_g):
+    from django_components import Component
+
+    k = next(_CASE)
+    mods = {}
+    for tag, rel in (("p", REL), ("c", REL2)):
+        name = f"verif_c16_d{os.getpid()}_{k}_{tag}"
+        mod = types.ModuleType(name)
+        mod.__file__ = os.path.join(_ENV["root"], rel, "comp.py")
+        sys.modules[name] = mod
+        mods[tag] = name
+    P = type(f"D{k}P", (Component,), {"__module__": mods["p"], "template": "<p>p</p>", "js_file": f"{mark}_d_pair.js",
+                                      "Media": type("Media", (), {"js": [f"{mark}_d_same.js"], "css": [f"{mark}_d_same.css"]})})
+    cattrs = {"__module__": mods["c"]}
+    if cmedia == "empty":
+        cattrs["Media"] = type("Media", (), {})
+    elif cmedia == "own":
+        cattrs["Media"] = type("Media", (), {"js": [f"{mark}_d_own.js"]})
+    if cpair == "file":
+        cattrs["js_file"] = f"{mark}_d_pair.js"
+    C = type(f"D{k}C", (P,), cattrs)
+    classes = {"P": P, "C": C}
+    if with_g:
+        classes["G"] = type(f"D{k}G", (C,), {"__module__": mods["p"]})
+    return classes, list(mods.values())
+
+
+def d_read(classes, insts, who, attr):
+    if who == "Ci":
+        if "Ci" not in insts:
+            insts["Ci"] = classes["C"]()
+        obj = insts["Ci"]
+    else:
+        obj = classes[who]
+    v = getattr(obj, attr)
+    if attr == "media":
+        return ("media", tuple(str(x) for x in v._js), tuple(sorted((m, tuple(str(x) for x in fs)) for m, fs in v._css.items())))
+    return ("text", v)
+
+
+def d_expected(mark, cmedia, cpair, who, attr):
+    """-> predicate over the observation (set semantics per medium; either spelling of a resolved path)"""
+    cls = "C" if who == "Ci" else who
+
+    def spell(rel, name):
+        return {name, rel + "/" + name}
+
+    if attr == "js":
+        rel = REL if (cls == "P" or cpair == "absent") else REL2
+        return lambda o: o == ("text", "/*pair %s*/" % rel), f"content of {rel}/{mark}_d_pair.js"
+    want_js = [spell(REL, f"{mark}_d_same.js")]
+    if cls in ("C", "G") and cmedia == "own":
+        want_js.append(spell(REL2, f"{mark}_d_own.js"))
+    want_css = [spell(REL, f"{mark}_d_same.css")]
+
+    def ok(o):
+        if o[0] != "media":
+            return False
+        js, css = list(o[1]), dict(o[2]).get("all", ())
+        return (len(js) == len(want_js) and all(any(j in w for j in js) for w in want_js) and len(set(js)) == len(js)
+                and len(css) == 1 and css[0] in want_css[0])
+
+    return ok, f"js {[sorted(w)[0] for w in want_js]} (files of the declaring class's directory), css {sorted(want_css[0])[0]}"
+
+
+def _worker_dirs(w, W, payload):
+    tier, mark = payload
+    agg = par.Agg()
+    i = -1
+    for cmedia in D_CHILD_MEDIA:
+        for cpair in D_CHILD_PAIR:
+            for with_g in (False, True):
+                reads = [r for r in D_READS if with_g or r[0] != "G"]
+                # every order of every subset of <= 3 reads (quick) / <= 4 (thorough), then the remaining reads in canonical order
+                k = 4 if tier == "thorough" else 3
+                for first in itertools.permutations(reads, k):
+                    i += 1
+                    if i % W != w:
+                        continue
+                    order = list(first) + [r for r in reads if r not in first]
+                    classes, modnames = d_world(mark, cmedia, cpair, with_g)
+                    insts = {}
+                    agg.states += 1
+                    agg.nontrivial += 1
+                    try:
+                        for who, attr in order:
+                            agg.transitions += 1
+                            try:
+                                obs = d_read(classes, insts, who, attr)
+                            except Exception as e:  # noqa
+                                obs = ("exc", type(e).__name__, str(e)[:200])
+                            ok, want = d_expected(mark, cmedia, cpair, who, attr)
+                            agg.validated += 1
+                            agg.observe((who, attr, obs))
+                            agg.expected[f"{who}.{attr}"] += 1
+                            if not ok(obs):
+                                agg.fail(f"D/{attr}/{'inherits' if (who != 'P') else 'own'}-{cmedia}-{cpair}",
+                                         f"part D [child Media {cmedia}, child js_file {cpair}, reads {order[:order.index((who, attr)) + 1]}] "
+                                         f"{who}.{attr} = {obs}, expected {want}",
+                                         {"part": "D", "cmedia": cmedia, "cpair": cpair, "with_g": with_g, "order": [list(r) for r in order], "spec": {"classes": []}})
+                                break
+                    finally:
+                        for m in modnames:
+                            sys.modules.pop(m, None)
+    return agg
+
+
 def _merge(ctx, name, agg, bound, extra=None):
     import time
 
@@ -1305,6 +1434,12 @@ def run(ctx):
                    "chain x 3^4 states x 4! orders x all 3^4 kind assignments; every other single-sink shape (<= 2 bases) x one kind throughout",
             "n=5": None if quick else "chain x 3^5 states x all 5! orders x one kind throughout",
         })
+        d_env(mark)
+        agg = par.run_sharded(_worker_dirs, (tier, mark))
+        _merge(ctx, "D_two_directories", agg, {
+            "hierarchy": "P in c16sub/ <- C in c16sub2/ (<- G in c16sub/), same-named files in both directories",
+            "child_media": list(D_CHILD_MEDIA), "child_js_file": list(D_CHILD_PAIR),
+            "reads": [".".join(r) for r in D_READS], "orders": "every ordered choice of the first %d reads, then the rest" % (3 if quick else 4)})
         agg = par.run_sharded(_worker_hist, (tier, mark))
         _merge(ctx, "H_histories", agg, {"n": 2 if quick else 3, "ops_per_class": 11, "search": "BFS to fixpoint + unmerged depth 2"})
         ev.assumptions = [
@@ -1335,6 +1470,19 @@ def replay(ctx, case):
                     name = c[inl][1] if c[inl][0] == "file" else c[inl][2]
                     if not name.startswith(_ENV["mark"] + "_"):
                         raise par.HarnessError(f"replay file was written with another VERIF_SEED (file {name})")
+        if part == "D":
+            d_env(_ENV["mark"])
+            classes, modnames = d_world(_ENV["mark"], case["cmedia"], case["cpair"], case["with_g"])
+            insts, ok = {}, True
+            for who, attr in case["order"]:
+                try:
+                    obs = d_read(classes, insts, who, attr)
+                except Exception as e:  # noqa
+                    obs = ("exc", type(e).__name__, str(e)[:200])
+                good, want = d_expected(_ENV["mark"], case["cmedia"], case["cpair"], who, attr)
+                print(f"  {who}.{attr} -> {obs}   [{'ok' if good(obs) else 'EXPECTED ' + want}]")
+                ok = ok and good(obs)
+            return ok
         if part in ("S", "L", "F"):
             ok = run_media_case(agg, part, case.get("idx", 0), spec, case["orders"], tags=case.get("tags", False), verbose=True)
         elif part == "P":
